@@ -1,3 +1,123 @@
-From XF Require Import Arith Sparse AsmE.
-Theorem C03_placeholder : True. Proof. exact I. Qed.
-Print Assumptions C03_placeholder.
+(* Properties_C03.v — theorem statements for C03 (electrostatic solution satisfies the discrete
+   field equations and Gauss's law).  Model: AsmE.v (ESolver::AnalyzeProblem).  Proofs:
+   AsmOpsProofs.v, AsmEProofs.v.  Real-number reading. *)
+From Coq Require Import ZArith List Bool Arith Lia Reals Lra.
+From XF Require Import Arith Sparse SparseProofs AsmOps AsmOpsProofs AsmE AsmEProofs.
+Import ListNotations.
+Local Open Scope R_scope.
+
+(* 1. Whatever sequence of "L.Put(L.Get(p,q)+v,p,q)" / "L.b[i]+=v" statements an assembler
+      executes, every row of the residual M V - b of the assembled system is the initial row
+      plus the sum of the statements' contributions (any order, any number, any pattern). *)
+Theorem C03_assembled_system_is_sum_of_contributions :
+  forall (M : matrixT R) (b : vecT R) (mops : list (nat * nat * R)) (bops : list (nat * R)) (V : vecT R),
+  mat_wf M -> mops_in_range (length M) mops -> bops_in_range (length b) bops ->
+  let M' := apply_mops RA M mops in
+  let b' := apply_bops RA b bops in
+  mat_wf M' /\ length M' = length M /\ length b' = length b /\
+  forall i, (i < length M)%nat ->
+    Ax M' V i - vget RA b' i =
+    (Ax M V i - vget RA b i) + lsum (fun o => mop_row V o i) mops - lsum (fun o => bop_entry o i) bops.
+Proof. exact assembled_rows. Qed.
+Print Assumptions C03_assembled_system_is_sum_of_contributions.
+
+(* 2. The element loop of ESolver::AnalyzeProblem (all meshes, all element orders): row i of the
+      assembled residual is minus the sum, over the elements and their local rows that are
+      assembled into row i, of the element's local residual  sum_b Me[a][b] U[n_b] - be[a]
+      (element matrices taken after the prescribed-value processing). *)
+Theorem C03_element_loop_rows :
+  forall (P : eprob (F:=R)) (nn : nat) (extRo extRi extZo : R) (V : vecT R) (Q : list Z) (U : vecT R)
+         (els : list eelem) (s : estate (F:=R)),
+  mat_wf (sM s) -> length (sb s) = length (sM s) -> Forall (elem_ok P nn (length (sM s))) els ->
+  let s' := fold_left (elem_step RA P nn extRo extRi extZo V Q) els s in
+  mat_wf (sM s') /\ length (sM s') = length (sM s) /\ length (sb s') = length (sb s) /\
+  forall i, (i < length (sM s))%nat ->
+    Ax (sM s') U i - vget RA (sb s') i =
+    (Ax (sM s) U i - vget RA (sb s) i) - loop_resid P extRo extRi extZo V Q els (sDepth s) (sKludge s) U i.
+Proof. exact loop_rows. Qed.
+Print Assumptions C03_element_loop_rows.
+
+(* 3a. Prescribed voltages: after the prescribed-value processing the local row of a node with
+       a prescribed value is  Me[a][a] * (U_a - prescribed_a)  for EVERY vector U, so the
+       assembled row forces the prescribed value. *)
+Theorem C03_prescribed_rows_force_values :
+  forall (V : vecT R) (Q : list Z) (n0 n1 n2 : nat) (m00 m01 m02 m11 m12 m22 b0 b1 b2 : R) (U : vecT R),
+  let n := (n0, n1, n2) in
+  let Me := [m00; m01; m02; m01; m11; m12; m02; m12; m22] in
+  let be := [b0; b1; b2] in
+  let r := presc_mb V Q n Me be in
+  (flagged Q n0 = true -> local_resid (fst r) (snd r) n U 0 = m00 * (vget RA U n0 - vget RA V n0)) /\
+  (flagged Q n1 = true -> local_resid (fst r) (snd r) n U 1 = m11 * (vget RA U n1 - vget RA V n1)) /\
+  (flagged Q n2 = true -> local_resid (fst r) (snd r) n U 2 = m22 * (vget RA U n2 - vget RA V n2)).
+Proof. exact presc_resid_flagged. Qed.
+Print Assumptions C03_prescribed_rows_force_values.
+
+(* 3b. Free nodes: for every U that takes the prescribed values, the local rows of free nodes keep
+       exactly the residual of the un-eliminated element equations (stiffness, mixed-boundary
+       and source terms), and rows of prescribed nodes vanish. *)
+Theorem C03_free_rows_keep_galerkin_residual :
+  forall (V : vecT R) (Q : list Z) (n0 n1 n2 : nat) (m00 m01 m02 m11 m12 m22 b0 b1 b2 : R) (U : vecT R),
+  let n := (n0, n1, n2) in
+  let Me := [m00; m01; m02; m01; m11; m12; m02; m12; m22] in
+  let be := [b0; b1; b2] in
+  (flagged Q n0 = true -> vget RA U n0 = vget RA V n0) ->
+  (flagged Q n1 = true -> vget RA U n1 = vget RA V n1) ->
+  (flagged Q n2 = true -> vget RA U n2 = vget RA V n2) ->
+  let r := presc_mb V Q n Me be in
+  local_resid (fst r) (snd r) n U 0 =
+    (if flagged Q n0 then m00 * (vget RA U n0 - vget RA V n0) else local_resid Me be n U 0) /\
+  local_resid (fst r) (snd r) n U 1 =
+    (if flagged Q n1 then m11 * (vget RA U n1 - vget RA V n1) else local_resid Me be n U 1) /\
+  local_resid (fst r) (snd r) n U 2 =
+    (if flagged Q n2 then m22 * (vget RA U n2 - vget RA V n2) else local_resid Me be n U 2).
+Proof. exact presc_resid. Qed.
+Print Assumptions C03_free_rows_keep_galerkin_residual.
+
+(* 3c. the element matrices handed to that step always have the symmetric 3x3 shape assumed *)
+Theorem C03_element_matrices_symmetric :
+  forall (P : eprob (F:=R)) (extRo extRi extZo D0 k0 : R) (el : eelem),
+  let r := elem_matrices RA P extRo extRi extZo D0 k0 el in
+  sym9 (snd (fst r)) /\ len3 (snd r).
+Proof. exact elem_matrices_shape. Qed.
+Print Assumptions C03_element_matrices_symmetric.
+
+(* 4. The element matrix is (minus) the linear-triangle Galerkin stiffness of div(eps grad V),
+      planar and axisymmetric, any anisotropic permittivity; (p_j,q_j)/(2a) is grad phi_j. *)
+Theorem C03_stiffness_is_galerkin :
+  forall (P : eprob (F:=R)) (extRo extRi extZo D0 k0 : R) (el : eelem) (j k : nat),
+  ee el = (None, None, None) -> (j < 3)%nat -> (k < 3)%nat ->
+  ga (el_geom P el) <> 0 -> snd (elem_dk P extRo extRi extZo D0 k0 el) <> 0 ->
+  let r := elem_matrices RA P extRo extRi extZo D0 k0 el in
+  let blk := nth (eblk el) (blocks P) (dblock RA) in
+  m3get RA (snd (fst r)) j k =
+    - galerkin_K (fst (elem_dk P extRo extRi extZo D0 k0 el)) (bex blk) (bey blk) (el_geom P el) j k
+      / snd (elem_dk P extRo extRi extZo D0 k0 el).
+Proof. exact stiffness_is_galerkin. Qed.
+Print Assumptions C03_stiffness_is_galerkin.
+
+Theorem C03_shape_functions_are_nodal :
+  forall x0 y0 x1 y1 x2 y2 : R,
+  ga (geom RA x0 y0 x1 y1 x2 y2) <> 0 ->
+  shape x0 y0 x1 y1 x2 y2 0 x0 y0 = 1 /\ shape x0 y0 x1 y1 x2 y2 0 x1 y1 = 0 /\ shape x0 y0 x1 y1 x2 y2 0 x2 y2 = 0 /\
+  shape x0 y0 x1 y1 x2 y2 1 x0 y0 = 0 /\ shape x0 y0 x1 y1 x2 y2 1 x1 y1 = 1 /\ shape x0 y0 x1 y1 x2 y2 1 x2 y2 = 0 /\
+  shape x0 y0 x1 y1 x2 y2 2 x0 y0 = 0 /\ shape x0 y0 x1 y1 x2 y2 2 x1 y1 = 0 /\ shape x0 y0 x1 y1 x2 y2 2 x2 y2 = 1.
+Proof. exact shape_kronecker. Qed.
+Print Assumptions C03_shape_functions_are_nodal.
+
+(* 5. Gauss's law / charge balance: the columns of every element stiffness sum to zero, so the
+      nodal reactions of any potential field sum to zero over the mesh. *)
+Theorem C03_charge_balance_columns :
+  forall (P : eprob (F:=R)) (extRo extRi extZo D0 k0 : R) (el : eelem) (k : nat),
+  ee el = (None, None, None) -> (k < 3)%nat ->
+  let r := elem_matrices RA P extRo extRi extZo D0 k0 el in
+  m3get RA (snd (fst r)) 0 k + m3get RA (snd (fst r)) 1 k + m3get RA (snd (fst r)) 2 k = 0.
+Proof. exact stiffness_column_sums_vanish. Qed.
+Print Assumptions C03_charge_balance_columns.
+
+(* non-vacuity: the freshly created system meets the hypotheses of the loop theorem *)
+Example C03_initial_state_ok : forall n bw prec lam,
+  mat_wf (lM (lcreate RA n bw prec lam)) /\ length (lb (lcreate RA n bw prec lam)) = length (lM (lcreate RA n bw prec lam)).
+Proof.
+  intros. cbn [lM lb lcreate]. split; [apply mat_wf_mcreate|].
+  rewrite mcreate_length, vzero_length. reflexivity.
+Qed.
